@@ -73,8 +73,7 @@ theorem keepTable_selected (o : Options) (r : ClassRow) (hk : r.kind < 256) (hf 
       (o.tableFilter != [] && !Spec.containsB (Spec.lowerB r.name) (Spec.lowerB o.tableFilter)) := by
     rcases ha with h0 | ⟨h1, h2⟩
     · rw [h0]; rfl
-    · unfold GoCase.lowerStable at h1 h2
-      rw [eq_of_beq h1, eq_of_beq h2]
+    · rw [GoCase.lowerStable_eq h1, GoCase.lowerStable_eq h2]
   simp only [hlow]
   have hkind : (([UInt8.ofNat r.kind] : Bytes) != [114] && ([UInt8.ofNat r.kind] : Bytes) != []) = !(r.kind == 114) := by
     by_cases h114 : r.kind = 114
